@@ -28,6 +28,7 @@ type PeerItem struct {
 // synchronously before returning a *CloseError; a read that is blocked (or issued) after a
 // local Close returns an error wrapping net.ErrClosed; writes after Close fail.
 type ExtConn struct {
+	FrameLimit  bool  // control frames (close) whose payload exceeds 125 bytes are refused, as gorilla does
 	DeadlineErr error // what SetReadDeadline / SetWriteDeadline return (ws.NewConnection fails on it after a successful dial)
 	ext.Conn
 	mu           sync.Mutex
@@ -146,9 +147,28 @@ func (c *ExtConn) WriteMessage(messageType int, data []byte) error {
 		c.log(fmt.Sprintf("f:2:%x", data))
 	}
 	c.WriteCanary++
+	if messageType == websocket.CloseMessage && c.FrameLimit && len(data) > 125 {
+		return errors.New("websocket: invalid control frame")
+	}
 	if messageType != websocket.CloseMessage && c.WriteErr != nil {
 		return c.WriteErr
 	}
+	if !ok {
+		return errors.New("fake: write failed")
+	}
+	return nil
+}
+
+// WriteControl is gorilla's concurrency-safe writer for control frames.  A CLOSE frame sent through it is
+// still "the close frame" of the property (frames are written one at a time): it is counted among the
+// goroutines inside the write path like a WriteMessage; pings and pongs are not frames the property speaks about.
+func (c *ExtConn) WriteControl(messageType int, data []byte, deadline time.Time) error {
+	if messageType == websocket.CloseMessage {
+		return c.WriteMessage(messageType, data)
+	}
+	c.mu.Lock()
+	ok := c.Closes == 0
+	c.mu.Unlock()
 	if !ok {
 		return errors.New("fake: write failed")
 	}
